@@ -30,6 +30,7 @@ RULES = {
     'R7': 'sibling agreement: byte order of OutPoint in the stable index key vs Ord for Utxo',
     'R8': 'the stable source of a page is the delta-reverting accessor, unconditionally (= C08.R1b)',
     'R9': 'the page token of a follow-up request reaches the parser unchanged (request conversion table: Page(p) | page(p) -> Page(p))',
+    'R10': 'outputs a named, still unstable tip needs stay cached when a competing fork is discarded between pages (= C20.R3 reference counts)',
 }
 ASSUMPTIONS = ['depth counts fit i32']
 T = 'ic_btc_canister::types::'
@@ -225,3 +226,9 @@ def run(ctx):
     _run_before_plumbing(ctx)
     from rules import plumbing
     plumbing.request_conversions(ctx, 'R9')
+    # R10 (added after seeded change C06-9): a follow-up page replays the unstable blocks up to the tip its token
+    # names; every output those blocks reference must still be cached when a losing fork that shared the
+    # transaction is discarded between two pages (= C20.R3, the reference counts of the outpoint cache)
+    from sa.engine import SubCtx
+    from rules import c20
+    c20.run(SubCtx(ctx, {'R3': 'R10'}))
